@@ -623,7 +623,8 @@ func main() {
 	run.SetExtra("exhaustive_core", "all (partition, hint, resume subset, mode) for lengths 0..L on mem and on one in-process HTTP hop")
 
 	// sampled: other stacks, faults, multi-chunk contents
-	kinds := []string{"mem", "http", "http-loopback", "http(http)", "unify", "http(unify)", "http(debug)", "sub"}
+	// rot*: registries whose upload ids change with every write (rot) and with every status query too (rot2)
+	kinds := []string{"mem", "http", "http-loopback", "http(http)", "unify", "http(unify)", "http(debug)", "sub", "rot", "http(rot)", "http(rot2)", "rot2", "http(http(rot2))"}
 	ns := run.N(8000, 200000)
 	for i := 0; i < ns; i++ {
 		rng := run.Rand(41, uint64(i))
